@@ -10,6 +10,7 @@ mod rng;
 mod run_diff;
 mod run_indep;
 mod run_pull;
+mod run_san;
 mod run_sched;
 mod run_vclock;
 mod vclock;
@@ -92,6 +93,7 @@ fn main() {
     match cmd.as_str() {
         "check" => std::process::exit(check(&opts)),
         "replay" => std::process::exit(replay(&opts)),
+        "slice" => std::process::exit(run_san::slice_main(&opts, opts.cases.unwrap_or(2), if opts.prop == "C17" { opts.cases.unwrap_or(6) } else { 0 })),
         "digest" => std::process::exit(run_diff::digest_main(&opts, false)),
         "digest-sub" => std::process::exit(run_diff::digest_main(&opts, true)),
         "trace" => std::process::exit(run_diff::trace_main(&opts, &opts.replay_file.clone().unwrap_or_default())),
@@ -111,6 +113,13 @@ fn check(o: &Opts) -> i32 {
             engines.push("E1-seq");
             run_seq::run_witnesses(o, &mut rep);
             run_seq::run(o, &mut rep);
+            if o.ops.is_none() || o.cases.is_none() {
+                run_seq::run_enum(o, &mut rep);
+            }
+            if o.prop == "C17" && o.tier == "thorough" && o.cases.is_none() {
+                engines.push("E5-san (Miri)");
+                run_san::substeps(o, &mut rep);
+            }
             if matches!(o.prop.as_str(), "C01" | "C02" | "C03" | "C17") && o.ops.is_none() {
                 // the interval cases of these properties run on the virtual clock
                 engines.push("E3-vclock");
@@ -138,6 +147,10 @@ fn check(o: &Opts) -> i32 {
         "C18" | "C19" => {
             engines.push("E4-sched");
             run_sched::run(o, &mut rep);
+            if o.tier == "thorough" && o.cases.is_none() {
+                engines.push("E5-san (Miri, ThreadSanitizer)");
+                run_san::substeps(o, &mut rep);
+            }
         },
         p => {
             println!("INCONCLUSIVE property={} reason=no engine for this property yet", p);
@@ -297,7 +310,7 @@ fn required_clauses(prop: &str) -> &'static [&'static str] {
         "C04" => &["c04.subscription", "c04.relay"],
         "C05" => &["c05.error-while-live"],
         "C06" => &["pipe-macro-left-to-right-test", "stage map+flatten", "stage concat", "pipelines over an unbounded iterator"],
-        "C07" => &["c07.compare", "c07.take-complete", "c07.upstream-complete"],
+        "C07" => &["c07.compare", "c07.take-complete", "c07.take-upstream-stop", "c07.upstream-complete"],
         "C08" => &["c08.greeting", "c08.late-greeter-after-over", "data-sequence", "fanin.completion", "fanin.pull-reaches-member"],
         "C09" => &["c09.boundary", "c09.outstanding-pull", "data-sequence", "fanin.completion"],
         "C10" => &["c10.greeting", "data-sequence", "fanin.completion", "fanin.pull-reaches-member"],
@@ -356,7 +369,7 @@ fn replay(o: &Opts) -> i32 {
     };
     let parts: Vec<&str> = id.split(':').collect();
     match parts.first().copied() {
-        Some("E1") => run_seq::replay(o, &parts),
+        Some("E1") | Some("E1e") => run_seq::replay(o, &parts),
         Some("E4") | Some("E4e") => run_sched::replay(o, &parts),
         Some("E2") => run_pull::replay(o, &parts),
         Some("E3") => run_vclock::replay(o, &parts),
